@@ -220,7 +220,8 @@ def build(c: dict, seed: int, unsupported: Optional[Tuple[str, Any]] = None, pro
                      lambda x: F.softmax(x * m, dim=c["dim"], dtype=sd), [T(c["shape"])], ["input"], ["input"])
     if op == "dropout":
         def u(x):
-            torch.manual_seed(c["rng"])
+            if not c.get("no_seed"):
+                torch.manual_seed(c["rng"])
             return U.dropout(x, c["p"], c["training"], **ukw)
 
         def r(x):
@@ -289,7 +290,8 @@ def build(c: dict, seed: int, unsupported: Optional[Tuple[str, Any]] = None, pro
         kw = dict(attn_mask=mask, dropout_p=c["dropout_p"], is_causal=c["mode"] == "causal")
 
         def u(q, k, v):
-            torch.manual_seed(c["rng"])
+            if not c.get("no_seed"):
+                torch.manual_seed(c["rng"])
             return U.scaled_dot_product_attention(q, k, v, mult=c["mult"], **kw)
 
         def r(q, k, v):
